@@ -88,3 +88,20 @@ def sample_events(tr, n=3):
         if "cr" in r:
             r["cr"] = r["cr"][:12]
     return keep
+
+
+def spend_at_trim_depth(tr, trim_depth=4):
+    """Does the trace contain a block that spends an output in exactly the block that trims it (created trim_depth blocks
+    earlier on the same chain and marked trimmable)?  Returns the event or None."""
+    rows = vlib.read_ndjson(tr)
+    mines = {r["b"]: r for r in rows if r["op"] == "mine"}
+    for b, r in sorted(mines.items()):
+        if not r["sp"]:
+            continue
+        a, steps = b, 0
+        while steps < trim_depth and a in mines:
+            a = mines[a]["p"]
+            steps += 1
+        if steps == trim_depth and a in mines and set(mines[a]["tm"]) & set(r["sp"]):
+            return {"block": b, "height": r["h"], "spent": sorted(set(mines[a]["tm"]) & set(r["sp"])), "created_in_block": a}
+    return None
